@@ -220,11 +220,15 @@ func genCopyGlobCase(r *Rng) []Op {
 		ps = strings.Join(pairs, ",")
 	}
 	w := g.winAll()
-	ops = append(ops, Op{fmt.Sprintf("cmd copy pairs=%s glob=%s %s copynan=%d %s", ps, pat, g.opts(), r.Intn(2), w), true})
+	bs := ""
+	if r.Chance(1, 2) {
+		bs = fmt.Sprintf(" base=%d", 1+r.Intn(3))
+	}
+	ops = append(ops, Op{fmt.Sprintf("cmd copy pairs=%s glob=%s %s copynan=%d %s%s", ps, pat, g.opts(), r.Intn(2), w, bs), true})
 	for _, n := range present {
 		ops = g.fdisks(ops, true, "dst/"+n)
 	}
-	ops = append(ops, Op{fmt.Sprintf("cmd diff pairs=%s glob=%s %s", ps, pat, w), true})
+	ops = append(ops, Op{fmt.Sprintf("cmd diff pairs=%s glob=%s %s%s", ps, pat, w, bs), true})
 	return ops
 }
 
@@ -326,7 +330,11 @@ func genDiffGlobOrderCase(r *Rng) []Op {
 		}
 	}
 	pat := []string{"*.wsp", "[abc].wsp", "?.wsp"}[r.Intn(3)]
-	ops = append(ops, Op{fmt.Sprintf("cmd diff pairs=src/a.wsp>dst/a.wsp,src/b.wsp>dst/b.wsp,src/c.wsp>dst/c.wsp glob=%s %s", pat, g.winAll()), true})
+	bs := ""
+	if r.Chance(1, 2) {
+		bs = fmt.Sprintf(" base=%d", 1+r.Intn(3))
+	}
+	ops = append(ops, Op{fmt.Sprintf("cmd diff pairs=src/a.wsp>dst/a.wsp,src/b.wsp>dst/b.wsp,src/c.wsp>dst/c.wsp glob=%s %s%s", pat, g.winAll(), bs), true})
 	return ops
 }
 
@@ -433,7 +441,12 @@ func genSumCase(r *Rng, prop string) []Op {
 	}
 	common := fmt.Sprintf("items=%s itempat=%s srcpat=%s", is, itemPat, pat)
 	if prop == "C10" {
-		ops = append(ops, Op{fmt.Sprintf("cmd sum %s header=%d %s", common, r.Intn(2), w), true})
+		hd := r.Intn(2)
+		ops = append(ops, Op{fmt.Sprintf("cmd sum %s header=%d %s", common, hd, w), true})
+		if r.Chance(1, 3) {
+			// the same sum served by `whispertool server`
+			ops = append(ops, Op{fmt.Sprintf("cmd sum %s header=%d %s remote=1", common, hd, w), true})
+		}
 		return ops
 	}
 	ops = append(ops, Op{fmt.Sprintf("cmd sumdiff %s dest=sum.wsp %s", common, w), true})
@@ -553,8 +566,16 @@ func genRemoteCase(r *Rng) []Op {
 	ops = g.writeFile(ops, "src/it/f0.wsp", g.lay, 1+r.Intn(2))
 	ops = g.writeFile(ops, "src/it/f1.wsp", g.lay, 1+r.Intn(2))
 	ops = g.writeFile(ops, "dst/a.wsp", g.lay, 1+r.Intn(2))
+	dangling := r.Chance(1, 4)
+	if dangling {
+		// a name the pattern matches and that cannot be opened: not-exist, locally and remotely
+		ops = append(ops, Op{"dangle src/it/f9.wsp", false})
+	}
 	for i := 0; i < 2; i++ {
 		w := g.win()
+		if dangling {
+			w = g.winAll()
+		}
 		file := "src/a.wsp"
 		if r.Chance(1, 4) {
 			file = "src/missing.wsp"
@@ -568,6 +589,9 @@ func genRemoteCase(r *Rng) []Op {
 			ops = append(ops, Op{fmt.Sprintf("cmd diff pairs=%s>dst/a.wsp %s%s", file, w, rm), true})
 		}
 		ip, sp, items := "it", "*.wsp", "src/it/f0.wsp+src/it/f1.wsp>"
+		if dangling {
+			items = "src/it/f0.wsp+src/it/f1.wsp+src/it/f9.wsp>"
+		}
 		switch r.Intn(4) {
 		case 0:
 			sp, items = "zz*", ">"
@@ -591,6 +615,9 @@ func genRemoteCase(r *Rng) []Op {
 	}
 	var pairs []string
 	all := []string{"a.wsp", strings.TrimPrefix(odd, "src/"), "it/f0.wsp", "it/f1.wsp"}
+	if dangling {
+		all = append(all, "it/f9.wsp") // globbing lists the name; reading it reports not-exist
+	}
 	sort.Strings(all)
 	for _, n := range all {
 		if ok, _ := pathMatch(pat, n); ok {
